@@ -1617,7 +1617,23 @@ def make_builtins(I: Interp):
         return S.divmod_(a, b)
 
     def b_round(x, n=None):
-        raise Unsupported("round")
+        """round(x, k) for a concrete k >= 0: a multiple r of 10**-k with |r - x| <= 10**-k / 2 (which of the two neighbours is
+        taken at an exact tie is left open); round(x) likewise with k = 0, as an int"""
+        x, k = unwrap(x), unwrap(n)
+        if isinstance(x, (int, float)) and (k is None or isinstance(k, int)):
+            return round(x, k) if k is not None else round(x)
+        if not (k is None or (isinstance(k, int) and 0 <= k <= 12)):
+            raise Unsupported("round with a symbolic or negative number of digits")
+        c = ctx()
+        if c.concrete:
+            raise Unsupported("round in the concrete cross-check")
+        scale = 10 ** (k or 0)
+        m = c.fresh("rnd", "Int")
+        zx = S.to_real(S.z(x)) if not z3.is_real(S.z(x)) else S.z(x)
+        c.defs.append(z3.And(2 * (z3.ToReal(m) - zx * scale) <= 1, 2 * (zx * scale - z3.ToReal(m)) <= 1))
+        if k is None:
+            return Sym(m)
+        return Sym(z3.ToReal(m) / scale)
 
     def b_str(x=""):
         x = unwrap(x)
